@@ -241,7 +241,7 @@ def count_occurrences(g, node):
 
 def run_shard(rec):
     quick = rec.tier == 'quick'
-    rec.deadline = time.time() + (30 if quick else 600)
+    rec.deadline = time.time() + (300 if quick else 600)
     g = forest.load_module()
     rng = rec.rng
     fams = callback_families(g, rng)
